@@ -254,6 +254,38 @@ theorem jsbyte_roundtrip_today (l : List Nat) (hl : ∀ x ∈ l, x < 256) :
 theorem base64_roundtrip (bs : Bytes) (h : ∀ x ∈ bs, x < 256) : b64Decode (b64Encode bs) = .ok bs :=
   b64Decode_encode bs h
 
+/-- **distinct values never share a text form** (corollaries of the round trips; the decoder of the repaired
+    configuration is a left inverse): the integer text of two int64 values … -/
+theorem encodeInt_injective (v w : Int) (hv : -(2 ^ 63 : Int) ≤ v ∧ v < 2 ^ 63) (hw : -(2 ^ 63 : Int) ≤ w ∧ w < 2 ^ 63)
+    (h : encodeInt v = encodeInt w) : v = w := by
+  have hp : Proved Cfg.repaired := by decide
+  have h1 := i64_roundtrip Cfg.repaired hp v hv.1 hv.2
+  have h2 := i64_roundtrip Cfg.repaired hp w hw.1 hw.2
+  rw [h, h2] at h1
+  cases h1; rfl
+
+/-- … of two uint64 values … -/
+theorem encodeNat_injective (m n : Nat) (hm : m < 2 ^ 64) (hn : n < 2 ^ 64) (h : encodeNat m = encodeNat n) : m = n := by
+  have h1 := u64_roundtrip_today m hm
+  have h2 := u64_roundtrip_today n hn
+  rw [h, h2] at h1
+  cases h1; rfl
+
+/-- … the `a/b/c` text of two byte lists … -/
+theorem encodeBytes_injective (l l' : List Nat) (hl : ∀ x ∈ l, x < 256) (hl' : ∀ x ∈ l', x < 256)
+    (h : encodeBytes l = encodeBytes l') : l = l' := by
+  have h1 := jsbyte_roundtrip_today l hl
+  have h2 := jsbyte_roundtrip_today l' hl'
+  rw [h, h2] at h1
+  cases h1; rfl
+
+/-- … and the base64 text of two byte strings -/
+theorem b64Encode_injective (a b : Bytes) (ha : ∀ x ∈ a, x < 256) (hb : ∀ x ∈ b, x < 256)
+    (h : b64Encode a = b64Encode b) : a = b := by
+  have h1 := base64_roundtrip a ha
+  have h2 := base64_roundtrip b hb
+  rw [h, h2] at h1
+  cases h1; rfl
 /-- hex (base 16) and base-32 integer strings, unsigned and signed -/
 theorem hex_roundtrip_u16 (n : Nat) (hn : n < 2 ^ 64) : parseUint 16 64 (fmtNat 16 n) = .ok n :=
   parseUint_fmtNat 16 (by omega) (by omega) n hn
